@@ -1,5 +1,7 @@
 /- C11: a truncated message is always rejected. -/
-import FinProto.Obl.Side
+import FinProto.Obl.SKeys
+import FinProto.Obl.SMirror
+import FinProto.Obl.SWidths
 import FinProto.Props.RoundTrip
 namespace FinProto.Obl
 open FinProto
